@@ -18,7 +18,7 @@ ASSUMPTIONS = [
 ]
 OUTSIDE = ["more plates than the bound"]
 RULE = "plate-to-sample assignment and the winner of each selection are solver-enumerated; k stays symbolic and is split into ranges only by the comparisons the policy makes."
-BUDGET_S = {"quick": 240, "thorough": 1500}
+BUDGET_S = {"quick": 600, "thorough": 3000}
 TASK_QUOTA = 80
 
 
